@@ -53,6 +53,9 @@ def _job_opts(params):
     for k in list(opts):
         if "_" + k in params:
             opts[k] = params["_" + k]
+    cap = os.environ.get("VERIF_MAX_JOB_S")      # used when evaluating seeded changes: a diverging job need not run to its limit
+    if cap:
+        opts["timeout_s"] = min(opts["timeout_s"], int(cap))
     return opts
 
 
